@@ -460,3 +460,4 @@ Theorem C10_parent_child_footprint :
   end.
 Proof. exact footprint_parent_child. Qed.
 Print Assumptions C10_parent_child_footprint.
+
